@@ -63,12 +63,18 @@ RuntimesOf(I) == IF HasF(I, "runtimes") THEN SeqSet(I.runtimes) ELSE {}
 
 StakeOK(e, I) == e \in DOMAIN I.entities /\ I.entities[e].escrow >= ClaimTotal(e, I)
 
+(* the runtime version in force: of the deployments the descriptor lists (in whatever order) the one with the greatest       *)
+(* valid_from that is not in the future; -1 if there is none                                                                  *)
+InForce(rt, ep) ==
+    LET ok == {d \in SeqSet(rt.deps) : d.from <= ep} IN
+    IF ok = {} THEN -1 ELSE (CHOOSE d \in ok : \A x \in ok : x.from <= d.from).ver
+
 (* isSuitableExecutorWorker + the stake and validator-set pre-filters, recomputed from the raw records *)
 CEligible(n, rt, role, I, valEnts) ==
     /\ n.compute /\ ~n.frozen /\ n.exp >= I.epoch
     /\ StakeOK(n.ent, I)
-    /\ rt.ver >= 0
-    /\ \E x \in SeqSet(n.rts) : x.id = rt.id /\ x.ver = rt.ver /\ ~x.tee
+    /\ InForce(rt, I.epoch) >= 0
+    /\ \E x \in SeqSet(n.rts) : x.id = rt.id /\ x.ver = InForce(rt, I.epoch) /\ ~x.tee
     /\ rt.id \notin SeqSet(n.susp)
     /\ (rt.cons[role].vs => n.ent \in valEnts)
     \* VRF beacon (production path): only nodes that were registered before the previous epoch's alpha was fixed and that
